@@ -1,0 +1,104 @@
+// Copyright 2026 The OWASP Coraza contributors
+// SPDX-License-Identifier: Apache-2.0
+
+//go:build verif
+
+package corazawaf
+
+import (
+	"encoding/hex"
+	"fmt"
+	"reflect"
+	"regexp"
+	"strings"
+)
+
+func verifHex(s string) string {
+	if s == "" {
+		return "-"
+	}
+	return hex.EncodeToString([]byte(s))
+}
+
+func verifRx(re *regexp.Regexp) string {
+	if re == nil {
+		return "-"
+	}
+	return "r" + hex.EncodeToString([]byte(re.String()))
+}
+
+func verifBool(b bool) string {
+	if b {
+		return "1"
+	}
+	return "0"
+}
+
+// VerifDump renders what the rule was compiled to, for the verification harness:
+// targets (variable, count, key, regex key, exceptions), operator, action names, metadata
+// set by actions, and the chained rules. tfName maps a transformation function to its name.
+func (r *Rule) VerifDump(tfName func(ptr uintptr) string) string {
+	var sb strings.Builder
+	r.verifDump(&sb, tfName)
+	return sb.String()
+}
+
+func (r *Rule) verifDump(sb *strings.Builder, tfName func(ptr uintptr) string) {
+	fmt.Fprintf(sb, "R{id=%d ph=%d v=[", r.ID_, int(r.Phase_))
+	for i, v := range r.variables {
+		if i > 0 {
+			sb.WriteString(",")
+		}
+		fmt.Fprintf(sb, "%s:%s:%s:%s:[", v.Variable.Name(), verifBool(v.Count), verifHex(v.KeyStr), verifRx(v.KeyRx))
+		for j, e := range v.Exceptions {
+			if j > 0 {
+				sb.WriteString(";")
+			}
+			fmt.Fprintf(sb, "%s/%s", verifHex(e.KeyStr), verifRx(e.KeyRx))
+		}
+		sb.WriteString("]")
+	}
+	sb.WriteString("] op=")
+	if r.operator == nil {
+		sb.WriteString("-")
+	} else {
+		fmt.Fprintf(sb, "%s:%s:%s", verifHex(r.operator.Function), verifHex(r.operator.Data), verifBool(r.operator.Negation))
+	}
+	sb.WriteString(" acts=[")
+	for i, a := range r.actions {
+		if i > 0 {
+			sb.WriteString(",")
+		}
+		sb.WriteString(a.Name)
+	}
+	sb.WriteString("] tf=[")
+	for i, t := range r.transformations {
+		if i > 0 {
+			sb.WriteString(",")
+		}
+		sb.WriteString(tfName(reflect.ValueOf(t.Function).Pointer()))
+	}
+	msg, logdata := "", ""
+	if r.Msg != nil {
+		msg = r.Msg.String()
+	}
+	if r.LogData != nil {
+		logdata = r.LogData.String()
+	}
+	fmt.Fprintf(sb, "] msg=%s logdata=%s tags=[", verifHex(msg), verifHex(logdata))
+	for i, t := range r.Tags_ {
+		if i > 0 {
+			sb.WriteString(",")
+		}
+		sb.WriteString(verifHex(t))
+	}
+	fmt.Fprintf(sb, "] sev=%d rev=%s ver=%s mat=%d acc=%d status=%d cap=%s mm=%s log=%s audit=%s haschain=%s chain=",
+		int(r.Severity_), verifHex(r.Rev_), verifHex(r.Version_), r.Maturity_, r.Accuracy_, r.DisruptiveStatus,
+		verifBool(r.Capture), verifBool(r.MultiMatch), verifBool(r.Log), verifBool(r.Audit), verifBool(r.HasChain))
+	if r.Chain == nil {
+		sb.WriteString("-")
+	} else {
+		r.Chain.verifDump(sb, tfName)
+	}
+	sb.WriteString("}")
+}
